@@ -338,9 +338,9 @@ class Tensor:
     dt = as_dtype(dt)
     src = self.dtype
     if dt == src:
-      return Tensor(self.shape, dt, self._fn, dict(self.tags))
+      return Tensor(self.shape, dt, self._fn, _tags(self))
     return Tensor(self.shape, dt, lambda idx: OPS.cast(self.at(idx), src, dt),
-                  dict(self.tags))
+                  _tags(self))
 
   # ---------------------------------------------------------------- arithmetic
   def _bin(self, o, f, swap=False, cmp=False):
@@ -493,7 +493,7 @@ class Tensor:
 
   def __setitem__(self, idx, v):
     # numpy-style in-place store (np arrays in BlockPartitioner)
-    old = Tensor(self.shape, self.dtype, self._fn, dict(self.tags))
+    old = Tensor(self.shape, self.dtype, self._fn, _tags(self))
     new = setitem(old, idx, v)
     self._fn = new._fn
     self._cache = {}
@@ -587,6 +587,11 @@ def _or(a, b):
 
 
 # ------------------------------------------------------------------ construction
+def _tags(t):
+  """Tags that survive an operation: results of jnp operations are fresh arrays (not caller-owned)."""
+  return {k: v for k, v in t.tags.items() if k not in ("numpy_owned", "reduction", "contraction", "tensordot", "einsum")}
+
+
 def is_tensor(x):
   return isinstance(x, Tensor)
 
@@ -813,7 +818,8 @@ def getitem(t, idx):
         src.append(v)
     return t.at(tuple(src))
 
-  return Tensor(tuple(out_shape), t.dtype, fn, dict(t.tags))
+  tags = {"numpy_owned": t.tags["numpy_owned"] + "[view]"} if t.tags.get("numpy_owned") else {}
+  return Tensor(tuple(out_shape), t.dtype, fn, tags)
 
 
 def _check_index(i, d):
@@ -895,7 +901,7 @@ def setitem(t, idx, v):
       return newv
     return OPS.where(cin, newv, t.at(oidx))
 
-  return Tensor(t.shape, dt, fn, dict(t.tags))
+  return Tensor(t.shape, dt, fn, _tags(t))
 
 
 # ------------------------------------------------------------------ shape ops
@@ -930,7 +936,7 @@ def transpose(t, axes=None):
       src[a] = idx[o]
     return t.at(tuple(src))
 
-  return Tensor(shape, t.dtype, fn, dict(t.tags))
+  return Tensor(shape, t.dtype, fn, _tags(t))
 
 
 def moveaxis(t, src, dst):
@@ -945,7 +951,7 @@ def expand_dims(t, axis):
   t = asarray(t)
   axis = _norm_axis(axis, t.ndim + 1)
   shape = t.shape[:axis] + (1,) + t.shape[axis:]
-  return Tensor(shape, t.dtype, lambda idx: t.at(idx[:axis] + idx[axis + 1:]), dict(t.tags))
+  return Tensor(shape, t.dtype, lambda idx: t.at(idx[:axis] + idx[axis + 1:]), _tags(t))
 
 
 def squeeze(t, axis=None):
@@ -974,7 +980,7 @@ def squeeze(t, axis=None):
       src[a] = idx[o]
     return t.at(tuple(src))
 
-  return Tensor(shape, t.dtype, fn, dict(t.tags))
+  return Tensor(shape, t.dtype, fn, _tags(t))
 
 
 def _prod(xs):
@@ -1033,7 +1039,7 @@ def reshape(t, shape):
   # size obligation
   same = len(shape) == len(t.shape) and all(_dim_same(a, b) for a, b in zip(shape, t.shape))
   if same:
-    return Tensor(shape, t.dtype, t._fn, dict(t.tags))
+    return Tensor(shape, t.dtype, t._fn, _tags(t))
   src_nz = [(i, d) for i, d in enumerate(t.shape) if not _is_one(d)]
   dst_nz = [(i, d) for i, d in enumerate(shape) if not _is_one(d)]
   if len(src_nz) == len(dst_nz) and all(_dim_same(a[1], b[1]) for a, b in zip(src_nz, dst_nz)):
@@ -1044,7 +1050,7 @@ def reshape(t, shape):
         src[si] = idx[di]
       return t.at(tuple(src))
 
-    return Tensor(shape, t.dtype, fn, dict(t.tags))
+    return Tensor(shape, t.dtype, fn, _tags(t))
   st, ss = t.size, _prod(shape)
   cst, css = sym.concrete_int(st), sym.concrete_int(ss)
   if cst is not None and css is not None:
@@ -1076,7 +1082,7 @@ def reshape(t, shape):
     return t.at(tuple(reversed(src)))
 
   cur().axioms_used.add("reshape preserves the row-major flat view")
-  return Tensor(shape, t.dtype, fn, dict(t.tags))
+  return Tensor(shape, t.dtype, fn, _tags(t))
 
 
 def _radix_bound(flat, idxs, dims):
@@ -1106,7 +1112,7 @@ def _unit_view(t):
               for d in t.shape)
   if all(a is b for a, b in zip(shp, t.shape)):
     return t
-  return Tensor(shp, t.dtype, t._fn, dict(t.tags))
+  return Tensor(shp, t.dtype, t._fn, _tags(t))
 
 
 def _dim_same(a, b):
@@ -1204,7 +1210,7 @@ def _reshape_grouped(t, shape, groups):
       # unit axes: index 0
     return t.at(tuple(src))
 
-  return Tensor(tuple(shape), t.dtype, fn, dict(t.tags))
+  return Tensor(tuple(shape), t.dtype, fn, _tags(t))
 
 
 def _divmod_known(a, d):
